@@ -105,7 +105,8 @@ def main(path):
                 out.append("Definition %s (h:hist) : hist * bool := %s."%(fn.name,block(fn.body,env,props,False)))
     out.append("End History_gen.")
     return "\n".join(out)+"\n"
-SRC="/repo/src/funtracks/actions/action_history.py"
+import os as _os
+SRC=_os.environ.get("VERIF_REPO","/repo")+"/src/funtracks/actions/action_history.py"
 OUT="/verif/coq/Gen/History_gen.v"
 def regenerate(src=SRC,out=OUT):
     """(re)write Gen/History_gen.v from the current source; returns (ok, message)"""
